@@ -160,6 +160,8 @@ def run(tier, seed, model):
         guard.close()
     batch.resolve(camp, "C15")
     if not camp.oracle_failures:
+        with_waiters(camp, rng)
+    if not camp.oracle_failures:
         scaling(camp)
     camp.rule = ("22 hand-written streams covering every zero-length field of the grammar (x base and library client) plus "
                  "grammar-derived sessions with one length/count field forced to 0/1/max, truncations, noise tails and flipped "
@@ -169,6 +171,68 @@ def run(tier, seed, model):
                  "scaling measurement: CPU time of four times the bytes (many small messages in one chunk; one big rectangle in 64-byte "
                  "chunks) must stay below 8x the time of the bytes + 0.4 s - work proportional to the bytes received, not to their square")
     return camp
+
+
+def _waiter_child(conn, kind, chunks):
+    import io
+    import struct
+    from PIL import Image
+    from twisted.internet.testing import StringTransport
+    from vncdotool import client as vclient
+    import clientops
+    import tempfile
+    c = vclient.VNCDoToolClient()
+    c.factory = vclient.VNCDoToolFactory()
+    c.factory.nocursor = True
+    tr = StringTransport()
+    c.makeConnection(tr)
+    c.dataReceived(b"RFB 003.008\n\x01\x01\0\0\0\0" + struct.pack("!HH16sI", 4, 3, bytes([32, 24, 0, 1, 0, 255, 0, 255, 0, 255, 0, 8, 16, 0, 0, 0]), 0))
+    tr.clear()
+    if kind == "expect":
+        f = tempfile.NamedTemporaryFile(suffix=".png", delete=False)
+        Image.new("RGB", (4, 3), (1, 2, 3)).save(f.name)
+        c.expectScreen(f.name, 0)
+    elif kind == "capture":
+        c.captureScreen(io.BytesIO(), format="png")
+    else:
+        c.refreshScreen()
+    for ch in chunks:
+        c.dataReceived(ch)
+    msgs = clientops.parse_c2s(tr.value()) or []
+    conn.send(sum(1 for m in msgs if m[0] == "FbUpdateRequest"))
+
+
+def with_waiters(camp, rng):
+    """processing an update also runs whoever waits for it (a capture, a refresh, an expect whose image is not there yet
+    and asks again): with one, two, five updates in one chunk or byte by byte it still returns, having asked at most once
+    per update received"""
+    import multiprocessing as mp
+    import struct
+    ctx = mp.get_context("fork")
+    for kind in ("expect", "capture", "refresh"):
+        for nupd in (1, 2, 5):
+            upd = b"".join(b"\0\0\0\x01" + struct.pack("!HHHHi", 0, 0, 4, 3, 0) + bytes([rng.getrandbits(8), 7, 9, 0]) * 12 for _ in range(nupd))
+            for chunks in ([upd], [upd[j:j + 1] for j in range(len(upd))]):
+                parent, child = ctx.Pipe()
+                pr = ctx.Process(target=_waiter_child, args=(child, kind, chunks), daemon=True)
+                pr.start()
+                child.close()
+                got = parent.recv() if parent.poll(15) else None
+                if got is None:
+                    pr.kill()
+                pr.join(5)
+                camp.evaluations += 1
+                camp.count("with-waiter:" + kind)
+                camp.nontrivial.add(("waiter", kind, nupd, len(chunks)))
+                why = None
+                if got is None:
+                    why = "dataReceived did not return within 15 s"
+                elif got > 1 + nupd:
+                    why = f"{got} update requests were written for {nupd} update(s)"
+                if why:
+                    camp.oracle_failures.append({"kind": "oracle", "property": "C15", "case": {"scaling": True, "waiter": kind},
+                                                 "what": f"a pending {kind} and {nupd} update(s) of 4x3 pixels in {len(chunks)} chunk(s): {why}"})
+                    return
 
 
 def scaling(camp):
